@@ -172,8 +172,25 @@ func ruleFreezeHandshake(r *Run, rule string) {
 		var op ssa.Instruction
 		allInstrs(fn, func(in ssa.Instruction) {
 			if call, ok := in.(*ssa.Call); ok {
-				if g := staticCallee(call.Common()); g != nil && (fnShortName(g) == "add" || fnShortName(g) == "addWithID" || fnShortName(g) == "remove") && c.S(call.Call.Args[0]) == "P0.mutable" {
-					op = in
+				if g := staticCallee(call.Common()); g != nil && (fnShortName(g) == "add" || fnShortName(g) == "addWithID" || fnShortName(g) == "remove") && len(call.Call.Args) > 0 {
+					// the active memtable, read once or chosen among reads taken before / after a rotation
+					isActive := true
+					var leaves func(v ssa.Value, d int)
+					leaves = func(v ssa.Value, d int) {
+						if ph, isPhi := v.(*ssa.Phi); isPhi && d < 4 {
+							for _, e := range ph.Edges {
+								leaves(e, d+1)
+							}
+							return
+						}
+						if c.S(v) != "P0.mutable" {
+							isActive = false
+						}
+					}
+					leaves(call.Call.Args[0], 0)
+					if isActive {
+						op = in
+					}
 				}
 			}
 		})
